@@ -195,5 +195,125 @@ class HeaderRead(Contract):
         raise NotImplementedError
 
 
+class ImagesLoadGate(Contract):
+    """Images.deserialize on a document {V: {A: [record]}} for EVERY header version: the record is read by Image.deserialize and filed
+    through _add_1_1 (legacy 'src' re-filing) iff version <= 1.1, through add() otherwise -- once, with the document's variant and arch;
+    afterwards the header carries the current version.  Callees are recorded (their own contracts: meth:images.Images.add,
+    meth:images.Images._add_1_1, de:images.Image:*)."""
+    name = "productmd.images.Images.deserialize[version gate]"
+    key = "gate:images.Images.deserialize"
+
+    def __init__(self, src, T):
+        self.src, self.T = src, T
+
+    def setup(self, E):
+        from pyvc.engine import Entry
+        m = E.instantiate(("images", "Images"))
+        ver = SV(sym.Val.VStr(z3.Const("hdr.version", sym.S)))
+        m.fields["header"].fields["version"] = ver
+        E.assume(F.valid_header(self.T, m.fields["header"]))
+        V = SV(sym.Val.VStr(z3.Const("doc.variant", sym.S)))
+        A = SV(sym.Val.VStr(z3.Const("doc.arch", sym.S)))
+        rec = E.models.new_dict("record")
+
+        def D(items):
+            d = E.models.new_dict("doc")
+            for k, v in items:
+                d.entries.append(Entry(k, True, v))
+            return d
+        data = D([("header", D([])), ("payload", D([("compose", D([])), ("images", D([(V, D([(A, [rec])]))]))]))])
+        calls = []
+
+        def mk(n):
+            def summ(E_, obj, args, kwargs):
+                calls.append((n, obj, list(args)))
+                return None
+            return summ
+        self._stubs = [(("images", "Images"), "add"), (("images", "Images"), "_add_1_1"), (("images", "Image"), "deserialize"),
+                       (("common", "Header"), "deserialize"), (("composeinfo", "Compose"), "deserialize")]
+        for k in self._stubs:
+            E.summaries[k] = mk(k[1] if k[0][1] in ("Images",) else "%s.%s" % (k[0][1], k[1]))
+        return {"m": m, "ver": ver, "V": V, "A": A, "rec": rec, "data": data, "calls": calls}
+
+    def call(self, E, st):
+        try:
+            return E.call(E.getattr_(st["m"], "deserialize"), [st["data"]])
+        finally:
+            for k in self._stubs:
+                E.summaries.pop(k, None)
+            from . import sections
+            sections.install_valid_summaries(E, self.src, self.T)
+
+    def post(self, E, st, out):
+        if out.kind == "raise":
+            return {"dispatch_does_not_fail_for_wellformed_version": False}
+        v = version_parts(E, st["ver"])
+        legacy = le(v, (1, 1))
+        reads = [c for c in st["calls"] if c[0] == "Image.deserialize"]
+        files = [c for c in st["calls"] if c[0] in ("add", "_add_1_1")]
+        one = len(reads) == 1 and len(files) == 1 and reads[0][2][0] is st["rec"]
+        img = reads[0][1] if reads else None
+        if one and files[0][0] == "_add_1_1":
+            how, args_ok = legacy, files[0][2][0] is st["data"] and files[0][2][3] is img and And(_veq(files[0][2][1], st["V"]), _veq(files[0][2][2], st["A"]))
+        elif one:
+            how, args_ok = Not(legacy), files[0][2][2] is img and And(_veq(files[0][2][0], st["V"]), _veq(files[0][2][1], st["A"]))
+        else:
+            how, args_ok = False, False
+        return {"dispatch_does_not_fail_for_wellformed_version": True,
+                "record_read_once_and_filed_once": one,
+                "legacy_refiling_iff_version_at_most_1_1": how,
+                "filed_under_the_documents_variant_and_arch": args_ok,
+                "version_current_after_load": st["m"].fields["header"].fields["version"] == "%d.%d" % self.T.VERSION}
+
+    def concretise(self, model, st):
+        return {"version": concretise.value_of(model, st["ver"]), "variant": concretise.value_of(model, st["V"]),
+                "arch": concretise.value_of(model, st["A"])}
+
+    def sample_inputs(self, rng):
+        for ver in ("0.0", "0.3", "1.0", "1.1", "1.2", "2.0", "1.10", "10.0"):
+            yield {"version": ver, "variant": "Server", "arch": "x86_64"}
+
+    def native_eval(self, inputs):
+        mod = self.src.mods["images"]
+        m = mod.Images()
+        m.header.version = inputs["version"]
+        calls = []
+        m.add = lambda *a: calls.append(("add", a))
+        m._add_1_1 = lambda *a: calls.append(("_add_1_1", a))
+        m.header.deserialize = lambda *a: None
+        m.compose.deserialize = lambda *a: None
+        orig = mod.Image.deserialize
+        mod.Image.deserialize = lambda self_, d: calls.append(("Image.deserialize", (self_, d)))
+        rec = {}
+        data = {"header": {}, "payload": {"compose": {}, "images": {inputs["variant"]: {inputs["arch"]: [rec]}}}}
+        from pyvc.verify import native_call
+        try:
+            nat = native_call(m.deserialize, data)
+        finally:
+            mod.Image.deserialize = orig
+        if nat[0] == "raise":
+            return nat, {"dispatch_does_not_fail_for_wellformed_version": False}
+        import re
+        if not re.match(r"^\d+\.\d+$", inputs["version"]):
+            return ("skip", None), None
+        legacy = tuple(int(x) for x in inputs["version"].split(".")) <= (1, 1)
+        reads = [c for c in calls if c[0] == "Image.deserialize"]
+        files = [c for c in calls if c[0] != "Image.deserialize"]
+        one = len(reads) == 1 and len(files) == 1 and reads[0][1][1] is rec
+        how = one and (files[0][0] == "_add_1_1") == legacy
+        if one and files[0][0] == "_add_1_1":
+            ok = files[0][1][0] is data and files[0][1][1:3] == (inputs["variant"], inputs["arch"]) and files[0][1][3] is reads[0][1][0]
+        elif one:
+            ok = files[0][1][0:2] == (inputs["variant"], inputs["arch"]) and files[0][1][2] is reads[0][1][0]
+        else:
+            ok = False
+        return nat, {"dispatch_does_not_fail_for_wellformed_version": True, "record_read_once_and_filed_once": one,
+                     "legacy_refiling_iff_version_at_most_1_1": how, "filed_under_the_documents_variant_and_arch": ok,
+                     "version_current_after_load": m.header.version == "%d.%d" % self.T.VERSION}
+
+    def describe(self, inputs):
+        return "Images.deserialize of a version %r document with one record under %r/%r" % (inputs["version"], inputs["variant"], inputs["arch"])
+
+
 def contracts(src, T):
-    return [Gate(src, T, g) for g in GATES] + [HeaderRead(src, T, "common"), HeaderRead(src, T, "treeinfo")]
+    return [Gate(src, T, g) for g in GATES] + [HeaderRead(src, T, "common"), HeaderRead(src, T, "treeinfo"), ImagesLoadGate(src, T)]
